@@ -897,14 +897,22 @@ where
                 // in two boundary facets (part of the L3 gate), connected
                 let sphere_chi: i64 = 1 + if (D - 1) % 2 == 0 { 1 } else { -1 };
                 let bchi = euler::euler_characteristic(&fv) as i64;
+                // the library's own verdicts on this state (evidence for the witness only)
+                let lib = |rep: &mut Rep| -> String {
+                    let a = call(rep, "Triangulation::is_valid", || tri.is_valid().map_err(|e| e.to_string()));
+                    let b = call(rep, "Triangulation::validate_at_completion", || tri.validate_at_completion().map_err(|e| e.to_string()));
+                    format!("library: Triangulation::is_valid() = {:?}, validate_at_completion() = {:?}", a, b)
+                };
                 if strict_ok {
                     out.count("fn/boundary_is_closed_sphere");
                     if o.bnd_facets.is_empty() {
                         rep.bad("boundary", "empty", "", format!("a valid state with {} cells has no boundary facet", n_cells), vec!["> 0".into()], vec!["0".into()]);
                     } else if bchi != sphere_chi || o.bchi != sphere_chi {
-                        rep.bad("boundary", "chi-not-sphere", "", format!("boundary f-vector {:?} (library) / {:?} (enumeration) has Euler characteristic {} / {}, a closed {}-sphere has {}; {}", fv.by_dim, o.bf, bchi, o.bchi, D - 1, sphere_chi, links_note), vec![sphere_chi.to_string()], vec![bchi.to_string()]);
+                        let lv = lib(&mut rep);
+                        rep.bad("boundary", "chi-not-sphere", "", format!("boundary f-vector {:?} (library) / {:?} (enumeration) has Euler characteristic {} / {}, a closed {}-sphere has {}; {}; {}", fv.by_dim, o.bf, bchi, o.bchi, D - 1, sphere_chi, links_note, lv), vec![sphere_chi.to_string()], vec![bchi.to_string()]);
                     } else if !o.b_connected || !o.b_ridges_closed {
-                        rep.bad("boundary", "not-closed-connected", "", format!("boundary complex: connected through ridges = {}, every ridge in two boundary facets = {}; {}", o.b_connected, o.b_ridges_closed, links_note), vec!["true, true".into()], vec![format!("{}, {}", o.b_connected, o.b_ridges_closed)]);
+                        let lv = lib(&mut rep);
+                        rep.bad("boundary", "not-closed-connected", "", format!("boundary complex: connected through ridges = {}, every ridge in two boundary facets = {}; {}; {}", o.b_connected, o.b_ridges_closed, links_note, lv), vec!["true, true".into()], vec![format!("{}, {}", o.b_connected, o.b_ridges_closed)]);
                     }
                 } else {
                     out.count("not_judged/boundary_sphere/state_fails_configured_guarantee");
@@ -1030,7 +1038,11 @@ where
             out.count(&format!("states/no_cells_checked/{}", origin));
         } else {
             let st = refcheck::Stack::compute(m);
-            if !st.l1.is_empty() || !st.l2.is_empty() || !st.fails(Guarantee::Pseudomanifold, false, n).is_empty() {
+            // "valid triangulation" = L1, L2 and the full PL-manifold Level 3 (vertex links) recomputed
+            // independently, whatever guarantee is configured: pinched complexes (which the library's
+            // hull-vertex removal produces and the Pseudomanifold guarantee tolerates) are not balls and
+            // have stars that are not facet-connected; they are counted and skipped.
+            if !st.l1.is_empty() || !st.l2.is_empty() || !st.fails(Guarantee::PLManifoldStrict, true, n).is_empty() {
                 out.count("not_judged/invalid_state");
                 out.count(&format!("not_judged/invalid_state/{}", origin));
                 return true;
